@@ -43,22 +43,21 @@ Definition one_arg (r : pres) : result terr str :=
   | _ => Err EUnsupported
   end.
 
-(* SheetParser.parse_next_row + RowParser.parse_row on an insert row: the inclusion cell first; "false" -> the row is read
-   without templating (its argument cell is not evaluated); otherwise the inclusion cell again, then the argument cell —
-   also when the inclusion cell then reads as not included (e.g. {@ none @}): only the STRING "false" protects the cells *)
-Definition inst_insert (cx : ctx) (inc arg : cell) : result terr (option str) :=
+(* SheetParser.parse_next_row + RowParser.parse_row on an insert row: the inclusion cell first; when the pre-check reads it as
+   excluded (RowLoop.precheck_excluded: the string "false", and — on a tree with fx = true — any falsy object) the row is read
+   without templating and its argument cell is not evaluated; otherwise the inclusion cell again, then the argument cell, also
+   when the inclusion cell then reads as not included (fx = false, {@ none @}): parse_row instantiates every cell of the row *)
+Definition inst_insert_f (fx : bool) (cx : ctx) (inc arg : cell) : result terr (option str) :=
   match parse_as_string_m penv pnat (Some cx) inc with
   | Err e => Err e
   | Ok pi =>
-    match to_text pnat pi with
+    match precheck_excluded pnat fx pi with
     | Err e => Err e
-    | Ok s =>
-      if str_eqb (lower (strip s)) s_false then Ok None
-      else
+    | Ok true => Ok None
+    | Ok false =>
         match to_include pnat pi with
         | Err e => Err e
         | Ok included =>
-          (* parse_row instantiates every cell of the row, whatever the inclusion cell says *)
           match parse_m penv pnat (Some cx) arg with
           | Err e => Err e
           | Ok pa => match one_arg pa with Err e => Err e | Ok a => Ok (if included then Some a else None) end
@@ -66,6 +65,9 @@ Definition inst_insert (cx : ctx) (inc arg : cell) : result terr (option str) :=
         end
     end
   end.
+
+(* the code of this run *)
+Definition inst_insert := inst_insert_f falsy_include_if_skips_evaluation.
 
 (* map_template_arguments_to_context for at most one declared argument without default, in the EMPTY context:
    get_node_group hands over no data row here, and nothing of the inserting flow *)
